@@ -1178,6 +1178,17 @@ fn held_cmd(a: &Args) -> i32 {
     0
 }
 
+fn threads_cmd(a: &Args) -> i32 {
+    let t = a.num("--threads", 4) as usize;
+    let rounds = a.num("--rounds", 20000) as usize;
+    shared::init();
+    alloc::reset(1, false);
+    let bad = scale::threads(t, rounds, a.num("--seed", 1));
+    let f: Vec<String> = bad.iter().map(|(ti, r, what)| format!("{{\"thread\":{ti},\"round\":{r},\"what\":\"{}\"}}", json_escape(what))).collect();
+    out(&format!("{{\"type\":\"threads\",\"threads\":{t},\"rounds\":{rounds},\"failures\":[{}]}}\n", f.join(",")));
+    0
+}
+
 fn soak_cmd(a: &Args) -> i32 {
     let max_pow = a.num("--max-pow", 24) as u32;
     shared::init();
@@ -1277,6 +1288,7 @@ fn main() {
         "replay" => replay(&a),
         "scale" => scale_cmd(&a),
         "soak" => soak_cmd(&a),
+        "threads" => threads_cmd(&a),
         "held" => held_cmd(&a),
         "nested" => nested_cmd(&a),
         "huge" => huge_cmd(&a),
